@@ -1598,7 +1598,9 @@ def corr_frame(seed, tier):
         except Exception as e:  # the model has no refusal here: a refusal is a difference
             back = f"raised {type(e).__name__}: {str(e)[:160]}"
         stages = {}
-        for nm_, arg in (("training", obj), ("again", back)):
+        # (a Dataset is a mapping: the training data is handed back with its variables listed in the opposite order, which must not matter)
+        obj_t = obj[list(reversed(list(obj.data_vars)))] if container == "DS" else obj
+        for nm_, arg in (("training", obj_t), ("again", back)):
             try:
                 if isinstance(arg, str):
                     raise RuntimeError("inverse_transform_data " + arg)
